@@ -520,8 +520,15 @@ def c06(ix: Index) -> None:
 # ======================================================================== C07
 def c07(ix: Index) -> None:
     sc = ix.sc
-    if ix.meta.get('abort') == 'nonquiet' or ix.meta.get('hang') in ('steps', 'horizon'):
-        ix.v('C07', 'forwarding-does-not-terminate', None, meta={k: ix.meta[k] for k in ('hang', 'abort', 'steps', 'vt')})
+    if ix.meta.get('abort') == 'nonquiet' or ix.meta.get('hang') in ('steps', 'horizon', 'livelock'):
+        # the run was cut off. That is non-termination of forwarding only if some event kept going round: it was processed
+        # by one bus more often than it was handed to that bus by anything but forwarding, several times over. A program
+        # that is merely long (hundreds of events x 1 s handlers) is an inconclusive case, not a violation.
+        worst = max(((len(lst), ev, b) for (ev, b), lst in ix.procs_by.items()), default=(0, None, None))
+        if worst[0] > 3:
+            ix.v('C07', 'forwarding-does-not-terminate', None, meta={k: ix.meta[k] for k in ('hang', 'abort', 'steps', 'vt')}, event=worst[1], bus=worst[2], times_processed=worst[0])
+        else:
+            ix.C['c07_cut_off_without_a_loop'] += 1
         return
     if not ix.sane:
         return
